@@ -21,7 +21,7 @@ func init() { Register(c14{}) }
 
 func (c14) Name() string { return "c14" }
 func (c14) Rule() string {
-	return "full-server simulation over the wire: 8..45 client operations (didOpen/didChange/didSave/didClose/re-open, completion, hover, definition, references, rename, prepareRename, documentSymbol, workspace/symbol, formatting, foldingRange, documentLink, semanticTokens full/range/delta, inlineCompletion, Server.CodeAction through a debug method, didChangeConfiguration with the client answering workspace/configuration immediately, late or never, unknown notifications, requests on closed documents) on 1..4 journal-profile documents carrying version markers, with and without workspace root, hledger found or not (exec-ok), optional transport close, clock jumps (over midnight, by months, backwards); in a quarter of the runs (disk-fault class) journal files are hit by one-shot disk faults (enoent, eio, torn read, stat-small) while only the invariants and the marker oracle are judged, then the faults stop, the server is told about the files they hit (didSave / didOpen+didSave+didClose), every open document is touched, and from then on every compared answer must again equal the fresh reference; every go statement of the server is a task the simulator schedules under 7 policies with preemption at every lock, sync.Map, disk, clock, exec and client call. Invariants: no panic in any task, no deadlock, no livelock within 20000 steps, and in the -race build (same seeds, happens-before-invisible scheduling) no data-race report. Oracle: no marker of a superseded version of the requesting document in any response; sampled responses must equal, after canonical JSON, the response of a FRESH sequential reference server brought to the same client-visible state (same disk clone, same settings, didOpen of every open document in open order); while background work of the requesting document is still pending the answer may instead equal the cold reference (no analysis has run) or the lagging reference (analysis of the last published version has run, the latest change not yet). Non-trivial: >= 2 server tasks alive at once or a request answered while a task was pending. Distinct: schedule signature + operation kinds."
+	return "full-server simulation over the wire: 8..45 client operations (didOpen/didChange/didSave/didClose/re-open, completion, hover, definition, references, rename, prepareRename, documentSymbol, workspace/symbol, formatting, foldingRange, documentLink, semanticTokens full/range/delta, inlineCompletion, Server.CodeAction through a debug method, didChangeConfiguration with the client answering workspace/configuration immediately, late or never, unknown notifications, requests on closed documents) on 1..4 journal-profile documents carrying version markers, with and without workspace root, hledger found or not (exec-ok), optional transport close, clock jumps (over midnight, by months, backwards), the file of an open document becoming unreadable for good (sticky EIO); in a quarter of the runs (disk-fault class) journal files are hit by one-shot disk faults (enoent, eio, torn read, stat-small) while only the invariants and the marker oracle are judged, then the faults stop, the server is told about the files they hit (didSave / didOpen+didSave+didClose), every open document is touched, and from then on every compared answer must again equal the fresh reference; every go statement of the server is a task the simulator schedules under 7 policies with preemption at every lock, sync.Map, disk, clock, exec and client call. Invariants: no panic in any task, no deadlock, no livelock within 20000 steps, and in the -race build (same seeds, happens-before-invisible scheduling) no data-race report. Oracle: no marker of a superseded version of the requesting document in any response; sampled responses must equal, after canonical JSON, the response of a FRESH sequential reference server brought to the same client-visible state (same disk clone, same settings, didOpen of every open document in open order); while background work of the requesting document is still pending the answer may instead equal the cold reference (no analysis has run) or the lagging reference (analysis of the last published version has run, the latest change not yet). Non-trivial: >= 2 server tasks alive at once or a request answered while a task was pending. Distinct: schedule signature + operation kinds."
 }
 func (c14) Enumerated(string) int            { return 0 }
 func (c14) Components() ([]string, []string) { return serverComponents() }
@@ -422,6 +422,16 @@ func (c14) Run(ctx *RunCtx) {
 				ctx.T("op%d transport closed by the client with %d background tasks alive", op, d.LiveBg())
 				ctx.Stats.Inc("fault:eof")
 				kinds = append(kinds, "eof")
+			} else if workspace && doc.No != 1 && doc.Open && doc.DiskMark >= 0 && !w.Env.Disk.BadRead[doc.Path] && c.Pct("becomes-unreadable", 35) {
+				// the file of an OPEN document (not the root journal: a server that cannot
+				// read its root at start-up is another question) becomes unreadable (sticky EIO:
+				// stat succeeds, read fails): while it is open its buffer counts; once
+				// it is closed nothing of the buffer may stay, exactly as on a fresh
+				// server that cannot read the file either
+				w.Env.Disk.BadRead[doc.Path] = true
+				ctx.T("op%d the file of d%d becomes unreadable (sticky EIO)", op, doc.No)
+				ctx.Stats.Inc("fault:eio-sticky")
+				kinds = append(kinds, "unreadable")
 			} else if c.Pct("clock-jump", 40) {
 				// the wall clock jumps: forwards over midnight, by months, or backwards
 				// (NTP step); what an answer says about "today" follows the clock of the
